@@ -216,6 +216,27 @@ func init() {
 			s := m.makeSlice(st.Elem(), m.asTerm(a[1]), m.asTerm(a[2]), "reflect.MakeSlice")
 			return reflVal{t: t, v: s}
 		},
+		"reflect.Append": func(m *Machine, c *frame, a []value) value {
+			rv := m.asReflVal(a[0])
+			st, ok := rv.t.Underlying().(*types.Slice)
+			if !ok {
+				m.reflPanic("reflect.Append of non-slice type")
+			}
+			sl, _ := rv.get().([]value)
+			xs, _ := a[1].([]value)
+			els := make([]value, 0, len(xs))
+			for _, x := range xs {
+				xv := m.asReflVal(x)
+				if !types.AssignableTo(xv.t, st.Elem()) {
+					m.reflPanic("reflect.Append: value of type " + typeStr(xv.t) + " is not assignable to type " + typeStr(st.Elem()))
+				}
+				els = append(els, xv.get())
+			}
+			if len(els) == 0 {
+				return reflVal{t: rv.t, v: sl}
+			}
+			return reflVal{t: rv.t, v: appendVals(sl, els)}
+		},
 		"reflect.MakeMapWithSize": func(m *Machine, c *frame, a []value) value {
 			t := m.asReflType(a[0])
 			mt, ok := t.Underlying().(*types.Map)
